@@ -1,18 +1,27 @@
 // Engine C09 — a compiled runnable is safe for concurrent use; runs are isolated.
 //
-// One case = one compiled object of the zoo (built through the public API only), a set of
-// K call specs (paradigm x input x option set), and a concurrent phase in which G
-// goroutines make PerG calls each. Every spec is first run ALONE (twice: the solo
-// observation must itself be deterministic); then all calls run concurrently; every
-// concurrent call must produce exactly what its spec produced alone:
-//   - the canonically rendered result (own tag -> "@"),
+// One case = one compiled object of the zoo (built through the public API only, twice from
+// the same seed: a fresh copy and a reference copy), a set of K call specs (paradigm x input
+// x option set), and three phases:
+//  1. G goroutines, released at once, make PerG calls each on the FRESH copy (nothing has
+//     run on it yet: lazily initialised structures are first touched concurrently);
+//  2. every spec runs ALONE, twice, on the reference copy (the solo observation must itself be
+//     deterministic);
+//  3. every spec runs alone once more on the copy the concurrent calls used.
+//
+// Every concurrent call, and every call of phase 3, must produce exactly what its spec produced
+// alone in phase 2:
+//   - the canonically rendered result (own tag -> "<tSELF>"),
 //   - the multiset of events (node executions, branch evaluations, state generator and
 //     handler calls, model and tool calls, options delivered, callback events received by
 //     the call's own handlers and by shared handlers),
 //
 // and nothing that ran on behalf of one call may have observed anything of another call
-// (context, input, options, state object, handler). The binary is built with -race for
-// both tiers; a race report written while a case runs fails that case.
+// (context, input, options, state object, handler). Result and node-level events of every
+// call are also PREDICTED by the Gallina engine model from the description of the object and
+// the call's input and options (desc.go, Corr/C09.v); the prediction is compared in coqc. The
+// binary is built with -race for both tiers; a race report written while a case runs fails
+// that case.
 package main
 
 import (
@@ -274,7 +283,6 @@ func (engine) Run(ci any) lib.Result {
 	tagNo := 0
 	next := func() int { tagNo++; return tagNo }
 
-	// solo phase (twice)
 	var diffs []string
 	oracle, sig := "", ""
 	fail := func(kind, msg string) {
@@ -285,29 +293,9 @@ func (engine) Run(ci any) lib.Result {
 			oracle, sig = msg, kind+":"+c.Kind
 		}
 	}
-	soloRes := make([]string, len(specs))
-	soloEv := make([][]string, len(specs))
-	var soloObsL []soloObs
-	for i, sp := range specs {
-		a := doCall(obj, ctxPlain, ctxH, sp, i, -1, next())
-		b := doCall(obj, ctxPlain, ctxH, sp, i, -1, next())
-		soloRes[i], soloEv[i] = a.res, a.rc.eventNames()
-		if a.res != b.res || strings.Join(soloEv[i], "\x00") != strings.Join(b.rc.eventNames(), "\x00") {
-			fail("solo-nondeterministic", fmt.Sprintf("spec %s: two solo runs differ: %q vs %q", sp, clip(a.res), clip(b.res)))
-		}
-		for _, o := range []*callOut{a, b} {
-			for _, v := range o.rc.viol {
-				fail("cross-call", "solo "+sp.String()+": "+v)
-			}
-		}
-		if a.res == "hang" || strings.HasPrefix(a.res, "panic:") {
-			fail(strings.SplitN(a.res, ":", 2)[0], fmt.Sprintf("spec %s alone: %s", sp, a.res))
-		}
-		soloObsL = append(soloObsL, soloObs{Spec: sp.String(), Result: clip(a.res), Events: len(soloEv[i])})
-		tags = append(tags, "para:"+sp.Para, fmt.Sprintf("opt:%d", sp.Opt), "solo:"+strings.SplitN(a.res, ":", 2)[0])
-	}
-
-	// concurrent phase
+	// concurrent phase FIRST: the fresh copy (and, for the first case of a kind in this process,
+	// every process-wide lazily initialised structure) is touched for the first time by all
+	// callers at once
 	total := c.G * c.PerG
 	assign := make([]int, total)
 	for j := range assign {
@@ -332,6 +320,29 @@ func (engine) Run(ci any) lib.Result {
 	wg.Wait()
 	time.Sleep(2 * time.Millisecond) // stragglers (sender goroutines of fake streams) finish
 	tagNo = firstTag + total
+
+	// solo phase (twice) on the reference copy
+	soloRes := make([]string, len(specs))
+	soloEv := make([][]string, len(specs))
+	var soloObsL []soloObs
+	for i, sp := range specs {
+		a := doCall(obj, ctxPlain, ctxH, sp, i, -1, next())
+		b := doCall(obj, ctxPlain, ctxH, sp, i, -1, next())
+		soloRes[i], soloEv[i] = a.res, a.rc.eventNames()
+		if a.res != b.res || strings.Join(soloEv[i], "\x00") != strings.Join(b.rc.eventNames(), "\x00") {
+			fail("solo-nondeterministic", fmt.Sprintf("spec %s: two solo runs differ: %q vs %q", sp, clip(a.res), clip(b.res)))
+		}
+		for _, o := range []*callOut{a, b} {
+			for _, v := range o.rc.viol {
+				fail("cross-call", "solo "+sp.String()+": "+v)
+			}
+		}
+		if a.res == "hang" || strings.HasPrefix(a.res, "panic:") {
+			fail(strings.SplitN(a.res, ":", 2)[0], fmt.Sprintf("spec %s alone: %s", sp, a.res))
+		}
+		soloObsL = append(soloObsL, soloObs{Spec: sp.String(), Result: clip(a.res), Events: len(soloEv[i])})
+		tags = append(tags, "para:"+sp.Para, fmt.Sprintf("opt:%d", sp.Opt), "solo:"+strings.SplitN(a.res, ":", 2)[0])
+	}
 
 	// after the storm: every spec once more, alone, on the object the concurrent calls used
 	for i, sp := range specs {
